@@ -63,7 +63,9 @@ func (v *Reader) Seek(offset int) {
 }
 
 func (v *Reader) Read(length int) string {
-	if v.offset+length-1 >= v.size {
+	// nothing to read: also keeps a zero-length read at the end of the input
+	// away from the underlying reader, which reports io.EOF for it
+	if length == 0 || v.offset+length-1 >= v.size {
 		return ""
 	}
 	currentString := make([]byte, length)
@@ -78,7 +80,7 @@ func (v *Reader) Read(length int) string {
 }
 
 func (v *Reader) ReadAt(length int, offset int) string {
-	if offset+length-1 >= v.size {
+	if length == 0 || offset+length-1 >= v.size {
 		return ""
 	}
 	currentString := make([]byte, length)
